@@ -111,6 +111,7 @@ func genCfg(rt *rapid.T) Cfg {
 	c.Default = pct(rt, 60, "default")
 	c.Listener = pct(rt, 35, "listener")
 	c.Cache = rapid.IntRange(1, 10).Draw(rt, "cache")
+	c.ViaSection = pct(rt, 40, "viaSection")
 	return c
 }
 
